@@ -468,6 +468,21 @@ def check_obtain_deliver():
                 if classic.obtain(p) == got:
                     viol.append(("obtain-copy-not-independent:list", ""))
             del p
+        # obtain of a value that arrived as a local TUPLE whose items are references (the shell travels by value, the items
+        # by reference): the result must be a fully local copy, equal to the original and independent of it
+        c.execute("mix = ([1, 2], 7, ('x', {'k': 1}))")
+        cnt += 1
+        t = c.eval("mix")
+        got = classic.obtain(t)
+        flat = [got[0], got[2][1]] if (type(got) is tuple and len(got) == 3 and type(got[2]) is tuple) else [got]
+        if any(is_proxy(x) for x in flat) or got != ([1, 2], 7, ("x", {"k": 1})):
+            viol.append(("obtain-of-a-tuple-left-references-inside", "%r" % ([type(x).__name__ for x in flat],)))
+        else:
+            got[0].append(99)
+            got[2][1]["k"] = "changed"
+            if c.eval("repr(mix)") != repr(([1, 2], 7, ("x", {"k": 1}))):
+                viol.append(("obtain-copy-not-independent:tuple-of-references", c.eval("repr(mix)")))
+        del t
         box["n"] = cnt
 
     sch, _, exc = pair.run(main, horizon=100000, world=w)
